@@ -6146,6 +6146,8 @@ class Path(Shape, MutableSequence):
     def vertical(self, *y_points, relative=False, **kwargs):
         for index in range(len(y_points)):
             start_pos = self.current_point
+            if start_pos is None:
+                raise ValueError("vertical line without a current point")
             if relative:
                 self.append(
                     Line(
@@ -6167,6 +6169,8 @@ class Path(Shape, MutableSequence):
     def horizontal(self, *x_points, relative=False, **kwargs):
         for index in range(len(x_points)):
             start_pos = self.current_point
+            if start_pos is None:
+                raise ValueError("horizontal line without a current point")
             if relative:
                 self.append(
                     Line(
@@ -6308,6 +6312,8 @@ class Path(Shape, MutableSequence):
     def arc(self, *arc_args, relative=False, **kwargs):
         for index in range(0, len(arc_args), 6):
             start_pos = self.current_point
+            if start_pos is None:
+                raise ValueError("arc without a current point")
             rx = arc_args[index]
             ry = arc_args[index + 1]
             if rx < 0:
